@@ -23,7 +23,7 @@ theorem o_sup1 (w : World) : (modelOps indef curve now).fan_Supports 1 w = (.ok 
 theorem o_sup2 (w : World) : (modelOps indef curve now).fan_Supports 2 w = (.ok (supports w.fan w.dev .controlMode), w) := rfl
 theorem o_getPwm (w : World) : (modelOps indef curve now).fan_GetPwm w = goRead 0 (fanGetPwm w.dev) w := rfl
 theorem o_setPwm (v : Int) (w : World) : (modelOps indef curve now).fan_SetPwm v w =
-    (.ok (errOf (fanSetPwm w.dev v).2), { w with dev := (fanSetPwm w.dev v).1 }) := rfl
+    (.ok (t3ErrOf (fanSetPwm w.dev v).2), { w with dev := (fanSetPwm w.dev v).1 }) := rfl
 theorem o_getMin (w : World) : (modelOps indef curve now).fan_GetMinPwm w = (.ok w.fan.getMin, w) := rfl
 theorem o_getMax (w : World) : (modelOps indef curve now).fan_GetMaxPwm w = (.ok w.fan.getMax, w) := rfl
 theorem o_getRpmAvg (w : World) : (modelOps indef curve now).fan_GetRpmAvg w = (.ok w.fan.getRpmAvg, w) := rfl
@@ -31,7 +31,7 @@ theorem o_setRpmAvg (x : F64) (w : World) : (modelOps indef curve now).fan_SetRp
     (.ok (), { w with fan := w.fan.setRpmAvg indef x }) := rfl
 theorem o_neverStop (w : World) : (modelOps indef curve now).fan_ShouldNeverStop w = (.ok w.fan.neverStop, w) := rfl
 theorem o_setEnabled (v : Int) (w : World) : (modelOps indef curve now).fan_SetPwmEnabled v w =
-    (.ok (errOf (setPwmEnabled w.fan w.dev v).2.1), { w with dev := (setPwmEnabled w.fan w.dev v).1 }) := rfl
+    (.ok (t3ErrOf (setPwmEnabled w.fan w.dev v).2.1), { w with dev := (setPwmEnabled w.fan w.dev v).1 }) := rfl
 theorem o_curve (w : World) : (modelOps indef curve now).curve_Evaluate w = goRead 0 curve w := rfl
 theorem o_cycle (t c : Int) (w : World) : (modelOps indef curve now).controlLoop_Cycle t c w =
     (.ok (w.ctl.loop.cycle indef t c now).2,
@@ -107,10 +107,10 @@ theorem tryManual_eq (w : World) :
   · exact ⟨none, by simp⟩
   · rcases h1 : setPwmEnabled w.fan w.dev 1 with ⟨d', r, o⟩
     cases r
-    · exact ⟨_, by simp [errOf]; rfl⟩
-    · simp [errOf]
+    · exact ⟨_, by simp [t3ErrOf]; rfl⟩
+    · simp [t3ErrOf]
       exact ⟨_, ite_self _⟩
-    · simp [errOf]
+    · simp [t3ErrOf]
       exact ⟨_, ite_self _⟩
 
 end B3
@@ -244,7 +244,7 @@ theorem trans3_setPwm (indef : Int) (curve : Res Int) (now : Int) (w : World) (t
     Generated3.ctl_setPwm indef (modelOps indef curve now) target w
       = (match (ctlSetPwm w target).2.1 with
          | .panic p => (.panic p, (ctlSetPwm w target).1)
-         | r => (.ok (errOf r), (ctlSetPwm w target).1)) := by
+         | r => (.ok (t3ErrOf r), (ctlSetPwm w target).1)) := by
   unfold Generated3.ctl_setPwm ctlSetPwm
   cases hc : closestDistinct w.ctl target with
   | err e => exact absurd hc (findClosest_ne_err _ _ _)
@@ -253,16 +253,16 @@ theorem trans3_setPwm (indef : Int) (curve : Res Int) (now : Int) (w : World) (t
     b3simp [findClosest_eq, hc, applyMap_eq, getPwm_eq]
     cases hs : supports w.fan w.dev .pwmSensor
     · simp
-      rcases fanSetPwm_cases w.dev (applyPwmMapping w.ctl k) with h | ⟨e, h⟩ <;> simp [h, errOf]
+      rcases fanSetPwm_cases w.dev (applyPwmMapping w.ctl k) with h | ⟨e, h⟩ <;> simp [h, t3ErrOf]
     · cases hg : fanGetPwm w.dev with
       | ok cur =>
         by_cases hq : applyPwmMapping w.ctl k = cur
-        · simp [ctlGetPwm, hs, hg, goRead, hq, errOf]
+        · simp [ctlGetPwm, hs, hg, goRead, hq, t3ErrOf]
         · simp [ctlGetPwm, hs, hg, goRead, hq]
-          rcases fanSetPwm_cases w.dev (applyPwmMapping w.ctl k) with h | ⟨e, h⟩ <;> simp [h, errOf]
+          rcases fanSetPwm_cases w.dev (applyPwmMapping w.ctl k) with h | ⟨e, h⟩ <;> simp [h, t3ErrOf]
       | err e =>
         simp [ctlGetPwm, hs, hg, goRead]
-        rcases fanSetPwm_cases w.dev (applyPwmMapping w.ctl k) with h | ⟨e, h⟩ <;> simp [h, errOf]
+        rcases fanSetPwm_cases w.dev (applyPwmMapping w.ctl k) with h | ⟨e, h⟩ <;> simp [h, t3ErrOf]
       | panic p =>
         exfalso; unfold fanGetPwm at hg; split at hg <;> cases hg
 
@@ -279,7 +279,7 @@ theorem trans3_UpdateFanSpeed (indef : Int) (curve : Res Int) (now : Int) (w : W
     Generated3.ctl_UpdateFanSpeed indef (modelOps indef curve now) w
       = (match (updateFanSpeed indef w curve now).2.1 with
          | .panic p => (.panic p, (updateFanSpeed indef w curve now).1)
-         | r => (.ok (errOf r), (updateFanSpeed indef w curve now).1)) := by
+         | r => (.ok (t3ErrOf r), (updateFanSpeed indef w curve now).1)) := by
   obtain ⟨res, hres, hm⟩ := trans3_calculateTargetPwm indef curve now w
   unfold Generated3.ctl_UpdateFanSpeed updateFanSpeed
   simp only [run_bind, hres]
@@ -290,7 +290,7 @@ theorem trans3_UpdateFanSpeed (indef : Int) (curve : Res Int) (now : Int) (w : W
   | err e =>
     obtain ⟨g, rfl, ha⟩ := hm
     have := agrees_err g e ha
-    simp [this, run_pure, errOf]
+    simp [this, run_pure, t3ErrOf]
   | ok t =>
     obtain ⟨g, rfl, ha⟩ := hm
     have := agrees_ok g t ha
@@ -299,7 +299,7 @@ theorem trans3_UpdateFanSpeed (indef : Int) (curve : Res Int) (now : Int) (w : W
     simp [h1, trans3_setPwm, run_pure, run_bind]
     generalize ctlSetPwm _ t = cs
     rcases cs with ⟨w3, r3, o3⟩
-    cases r3 <;> simp [errOf]
+    cases r3 <;> simp [t3ErrOf]
 
 #print axioms trans3_ensureNoThirdParty
 #print axioms trans3_calculateTargetPwm
